@@ -7,14 +7,23 @@ package fox
 
 //@ package fox
 
-//@ func (*Router).getRoot props C04,C05
+//@ -- loads of the published tree made while the writer lock is not held (keyed by &fox.tree)
+//@ ghost var unlockedLoads [ref]int
+//@ -- the route most recently returned by a Txn write method
+//@ ghost var lastTxnRoute *Route
+
+//@ func (*Router).getRoot props C04,C05,C06
 //@   requires fox != nil
+//@   modifies unlockedLoads[&fox.tree]
+//@   ghost-set return : unlockedLoads[&fox.tree] = unlockedLoads[&fox.tree] + (held[&fox.mu] ? 0 : 1)
 //@   ensures result == published[&fox.tree]
+//@   ensures counted: unlockedLoads[&fox.tree] == old(unlockedLoads[&fox.tree]) + (old(held[&fox.mu]) ? 0 : 1)
 
 //@ func (*Router).txnWith props C04,C05,C06,C03
 //@   requires fox != nil && published[&fox.tree] != nil
 //@   requires write ==> !held[&fox.mu]
-//@   modifies held[&fox.mu], lockOps[&fox.mu], snapRef
+//@   modifies held[&fox.mu], lockOps[&fox.mu], snapRef, unlockedLoads[&fox.tree]
+//@   ensures locked-load: write ==> unlockedLoads[&fox.tree] == old(unlockedLoads[&fox.tree])
 //@   ensures snap: snapRef == nextref && cacheOK(result.rootTxn)
 //@   ensures result != nil && fresh(result) && result.fox == fox && result.write == write && result.rootTxn != nil && fresh(result.rootTxn)
 //@   ensures locked: write ==> held[&fox.mu]
@@ -75,7 +84,7 @@ package fox
 //@ func (*Router).Txn props C04,C06,C03
 //@   requires fox != nil && published[&fox.tree] != nil
 //@   requires write ==> !held[&fox.mu]
-//@   modifies held[&fox.mu], lockOps[&fox.mu], snapRef
+//@   modifies held[&fox.mu], lockOps[&fox.mu], snapRef, unlockedLoads[&fox.tree]
 //@   ensures snap: snapRef == nextref && cacheOK(result.rootTxn)
 //@   ensures result != nil && fresh(result) && result.fox == fox && result.write == write && result.rootTxn != nil
 //@   ensures locked: write ==> held[&fox.mu]
@@ -116,14 +125,14 @@ package fox
 
 //@ func (*Router).Updates props C04,C15
 //@   requires fox != nil && fn != nil && published[&fox.tree] != nil && !held[&fox.mu] && panicking == nil
-//@   modifies heap, held[&fox.mu], lockOps[&fox.mu], published[&fox.tree], pubCount[&fox.tree], snapRef
+//@   modifies heap, held[&fox.mu], lockOps[&fox.mu], published[&fox.tree], pubCount[&fox.tree], snapRef, unlockedLoads[&fox.tree]
 //@   ensures unlocked: !held[&fox.mu]
 //@   ensures committed: result == nil ==> pubCount[&fox.tree] == old(pubCount[&fox.tree]) + 1
 //@   ensures aborted: result != nil ==> pubCount[&fox.tree] == old(pubCount[&fox.tree]) && published[&fox.tree] == old(published[&fox.tree])
 
 //@ func (*Router).View props C04,C06
 //@   requires fox != nil && fn != nil && published[&fox.tree] != nil && panicking == nil
-//@   modifies heap, snapRef
+//@   modifies heap, snapRef, unlockedLoads[&fox.tree]
 //@   ensures nolock: held[&fox.mu] == old(held[&fox.mu]) && lockOps[&fox.mu] == old(lockOps[&fox.mu]) && pubCount[&fox.tree] == old(pubCount[&fox.tree]) && published[&fox.tree] == old(published[&fox.tree])
 
 //@ -- a snapshot of a transaction is a read-only view: it can never publish or unlock
@@ -144,3 +153,152 @@ package fox
 //@   modifies txn.rootTxn.root, txn.rootTxn.size
 //@   ensures readonly: !txn.write ==> result == ErrReadOnlyTxn && txn.rootTxn.root == old(txn.rootTxn.root) && txn.rootTxn.size == old(txn.rootTxn.size)
 //@   ensures ok: txn.write ==> result == nil
+
+//@ -- ---------------------------------------------------------------- Txn write methods: guards and counter
+//@ extern (*Regexp).MatchString in regexp pure
+
+//@ axiom errs.nonnil: ErrReadOnlyTxn != nil && ErrSettledTxn != nil
+//@ pred mwsOK(fox *Router) = forall k int :: {fox.mws[k]} 0 <= k && k < len(fox.mws) ==> fox.mws[k].m != nil
+//@ pred optsOK(opts []RouteOption) = forall k int :: {opts[k]} 0 <= k && k < len(opts) ==> opts[k] != nil
+
+//@ func (*Txn).Handle props C04,C02 partial
+//@   requires txn != nil && txn.fox != nil && (txn.rootTxn != nil ==> cacheOK(txn.rootTxn)) && mwsOK(txn.fox) && optsOK(opts)
+//@   panics-when txn.rootTxn == nil
+//@   modifies optCount, txn.rootTxn.root, txn.rootTxn.size, txn.rootTxn.maxParams, txn.rootTxn.depth, txn.rootTxn.writable, cachedIn, lastTxnRoute
+//@   modifies-since snapRef : E[*node]
+//@   ghost-set return : lastTxnRoute = result0
+//@   ensures readonly: !txn.write ==> result1 == ErrReadOnlyTxn && result0 == nil && txn.rootTxn.root == old(txn.rootTxn.root) && txn.rootTxn.size == old(txn.rootTxn.size)
+//@   ensures counted: (result1 == nil ==> result0 != nil && txn.rootTxn.size == old(txn.rootTxn.size) + 1) && (result1 != nil ==> result0 == nil && txn.rootTxn.size == old(txn.rootTxn.size))
+//@   ensures cache: cacheOK(txn.rootTxn) && lastTxnRoute == result0
+
+//@ func (*Txn).HandleRoute props C04,C02 partial
+//@   requires txn != nil && txn.fox != nil && (txn.rootTxn != nil ==> cacheOK(txn.rootTxn))
+//@   panics-when txn.rootTxn == nil
+//@   modifies txn.rootTxn.root, txn.rootTxn.size, txn.rootTxn.maxParams, txn.rootTxn.depth, txn.rootTxn.writable, cachedIn
+//@   modifies-since snapRef : E[*node]
+//@   ensures readonly: !txn.write ==> result == ErrReadOnlyTxn && txn.rootTxn.root == old(txn.rootTxn.root) && txn.rootTxn.size == old(txn.rootTxn.size)
+//@   ensures counted: (result == nil ==> txn.rootTxn.size == old(txn.rootTxn.size) + 1) && (result != nil ==> txn.rootTxn.size == old(txn.rootTxn.size))
+//@   ensures cache: cacheOK(txn.rootTxn)
+
+//@ func (*Txn).Update props C04,C02 partial
+//@   requires txn != nil && txn.fox != nil && (txn.rootTxn != nil ==> cacheOK(txn.rootTxn)) && mwsOK(txn.fox) && optsOK(opts)
+//@   panics-when txn.rootTxn == nil
+//@   modifies optCount, txn.rootTxn.root, txn.rootTxn.writable, cachedIn, lastTxnRoute
+//@   modifies-since snapRef : E[*node]
+//@   ghost-set return : lastTxnRoute = result0
+//@   ensures readonly: !txn.write ==> result1 == ErrReadOnlyTxn && result0 == nil && txn.rootTxn.root == old(txn.rootTxn.root)
+//@   ensures counted: txn.rootTxn.size == old(txn.rootTxn.size) && (result1 == nil ==> result0 != nil) && (result1 != nil ==> result0 == nil)
+//@   ensures cache: cacheOK(txn.rootTxn) && lastTxnRoute == result0
+
+//@ func (*Txn).UpdateRoute props C04,C02 partial
+//@   requires txn != nil && txn.fox != nil && (txn.rootTxn != nil ==> cacheOK(txn.rootTxn))
+//@   panics-when txn.rootTxn == nil
+//@   modifies txn.rootTxn.root, txn.rootTxn.writable, cachedIn
+//@   modifies-since snapRef : E[*node]
+//@   ensures readonly: !txn.write ==> result == ErrReadOnlyTxn && txn.rootTxn.root == old(txn.rootTxn.root)
+//@   ensures counted: txn.rootTxn.size == old(txn.rootTxn.size)
+//@   ensures cache: cacheOK(txn.rootTxn)
+
+//@ func (*Txn).Delete props C04,C02,C05 partial
+//@   requires txn != nil && txn.fox != nil && (txn.rootTxn != nil ==> cacheOK(txn.rootTxn))
+//@   panics-when txn.rootTxn == nil
+//@   modifies txn.rootTxn.root, txn.rootTxn.size, txn.rootTxn.writable, cachedIn, lastTxnRoute
+//@   modifies-since snapRef : E[*node]
+//@   ghost-set return : lastTxnRoute = result0
+//@   ensures readonly: !txn.write ==> result1 == ErrReadOnlyTxn && result0 == nil && txn.rootTxn.root == old(txn.rootTxn.root) && txn.rootTxn.size == old(txn.rootTxn.size)
+//@   ensures counted: (result1 == nil ==> txn.rootTxn.size == old(txn.rootTxn.size) - 1) && (result1 != nil ==> result0 == nil)
+//@   ensures cache: cacheOK(txn.rootTxn) && lastTxnRoute == result0
+
+//@ -- ---------------------------------------------------------------- Router write operations: one locked read-modify-write
+//@ pred routerIdle(fox *Router) = fox != nil && published[&fox.tree] != nil && !held[&fox.mu] && panicking == nil
+
+//@ func (*Router).Handle props C04,C05,C02 partial
+//@   requires routerIdle(fox) && mwsOK(fox) && optsOK(opts)
+//@   modifies heap, held[&fox.mu], lockOps[&fox.mu], published[&fox.tree], pubCount[&fox.tree], snapRef, unlockedLoads[&fox.tree], optCount, cachedIn, lastTxnRoute
+//@   ensures unlocked: !held[&fox.mu]
+//@   ensures locked-load: unlockedLoads[&fox.tree] == old(unlockedLoads[&fox.tree])
+//@   ensures committed: result1 == nil ==> pubCount[&fox.tree] == old(pubCount[&fox.tree]) + 1 && published[&fox.tree].size == old(published[&fox.tree].size) + 1 && result0 == lastTxnRoute && result0 != nil
+//@   ensures aborted: result1 != nil ==> pubCount[&fox.tree] == old(pubCount[&fox.tree]) && published[&fox.tree] == old(published[&fox.tree]) && result0 == nil
+
+//@ func (*Router).HandleRoute props C04,C05,C02 partial
+//@   requires routerIdle(fox)
+//@   modifies heap, held[&fox.mu], lockOps[&fox.mu], published[&fox.tree], pubCount[&fox.tree], snapRef, unlockedLoads[&fox.tree], cachedIn
+//@   ensures unlocked: !held[&fox.mu]
+//@   ensures locked-load: unlockedLoads[&fox.tree] == old(unlockedLoads[&fox.tree])
+//@   ensures committed: result == nil ==> pubCount[&fox.tree] == old(pubCount[&fox.tree]) + 1 && published[&fox.tree].size == old(published[&fox.tree].size) + 1
+//@   ensures aborted: result != nil ==> pubCount[&fox.tree] == old(pubCount[&fox.tree]) && published[&fox.tree] == old(published[&fox.tree])
+
+//@ func (*Router).Update props C04,C05,C02 partial
+//@   requires routerIdle(fox) && mwsOK(fox) && optsOK(opts)
+//@   modifies heap, held[&fox.mu], lockOps[&fox.mu], published[&fox.tree], pubCount[&fox.tree], snapRef, unlockedLoads[&fox.tree], optCount, cachedIn, lastTxnRoute
+//@   ensures unlocked: !held[&fox.mu]
+//@   ensures locked-load: unlockedLoads[&fox.tree] == old(unlockedLoads[&fox.tree])
+//@   ensures committed: result1 == nil ==> pubCount[&fox.tree] == old(pubCount[&fox.tree]) + 1 && published[&fox.tree].size == old(published[&fox.tree].size) && result0 == lastTxnRoute && result0 != nil
+//@   ensures aborted: result1 != nil ==> pubCount[&fox.tree] == old(pubCount[&fox.tree]) && published[&fox.tree] == old(published[&fox.tree]) && result0 == nil
+
+//@ func (*Router).UpdateRoute props C04,C05,C02 partial
+//@   requires routerIdle(fox)
+//@   modifies heap, held[&fox.mu], lockOps[&fox.mu], published[&fox.tree], pubCount[&fox.tree], snapRef, unlockedLoads[&fox.tree], cachedIn
+//@   ensures unlocked: !held[&fox.mu]
+//@   ensures locked-load: unlockedLoads[&fox.tree] == old(unlockedLoads[&fox.tree])
+//@   ensures committed: result == nil ==> pubCount[&fox.tree] == old(pubCount[&fox.tree]) + 1 && published[&fox.tree].size == old(published[&fox.tree].size)
+//@   ensures aborted: result != nil ==> pubCount[&fox.tree] == old(pubCount[&fox.tree]) && published[&fox.tree] == old(published[&fox.tree])
+
+//@ func (*Router).Delete props C04,C05,C02 partial
+//@   requires routerIdle(fox)
+//@   modifies heap, held[&fox.mu], lockOps[&fox.mu], published[&fox.tree], pubCount[&fox.tree], snapRef, unlockedLoads[&fox.tree], cachedIn, lastTxnRoute
+//@   ensures unlocked: !held[&fox.mu]
+//@   ensures locked-load: unlockedLoads[&fox.tree] == old(unlockedLoads[&fox.tree])
+//@   ensures committed: result1 == nil ==> pubCount[&fox.tree] == old(pubCount[&fox.tree]) + 1 && published[&fox.tree].size == old(published[&fox.tree].size) - 1 && result0 == lastTxnRoute
+//@   ensures aborted: result1 != nil ==> pubCount[&fox.tree] == old(pubCount[&fox.tree]) && published[&fox.tree] == old(published[&fox.tree]) && result0 == nil
+
+//@ -- ---------------------------------------------------------------- Router read operations: one load, never the writer lock
+//@ fun splitHost(url string) string
+//@ fun splitPath(url string) string
+//@ extern SplitHostPath pure
+//@   ensures same(host, splitHost(url)) && same(path, splitPath(url))
+//@ extern roundLatency pure
+//@ func (*Router).Route props C06,C05 partial
+//@   requires fox != nil && published[&fox.tree] != nil
+//@   assume-at call (*cTx).resetNil#1 : pool-discipline: c != nil && c.params != nil && c.tsrParams != nil && c.skipNds != nil
+//@   modifies heap, unlockedLoads[&fox.tree]
+//@   ensures nolock: held[&fox.mu] == old(held[&fox.mu]) && lockOps[&fox.mu] == old(lockOps[&fox.mu]) && pubCount[&fox.tree] == old(pubCount[&fox.tree])
+//@   ensures one-load: unlockedLoads[&fox.tree] == old(unlockedLoads[&fox.tree]) + (held[&fox.mu] ? 0 : 1)
+//@   ensures found: result != nil ==> result == old(selNode(published[&fox.tree], method, splitHost(pattern), splitPath(pattern)).route) && !old(selTsr(published[&fox.tree], method, splitHost(pattern), splitPath(pattern)))
+
+//@ func (*Router).Has props C06,C05
+//@   requires fox != nil && published[&fox.tree] != nil
+//@   modifies heap, unlockedLoads[&fox.tree]
+//@   ensures nolock: held[&fox.mu] == old(held[&fox.mu]) && lockOps[&fox.mu] == old(lockOps[&fox.mu]) && pubCount[&fox.tree] == old(pubCount[&fox.tree])
+//@   ensures one-load: unlockedLoads[&fox.tree] == old(unlockedLoads[&fox.tree]) + (held[&fox.mu] ? 0 : 1)
+
+//@ func (*Router).Reverse props C06,C05 partial
+//@   requires fox != nil && published[&fox.tree] != nil
+//@   assume-at call (*cTx).resetNil#1 : pool-discipline: c != nil && c.params != nil && c.tsrParams != nil && c.skipNds != nil
+//@   modifies heap, unlockedLoads[&fox.tree]
+//@   ensures nolock: held[&fox.mu] == old(held[&fox.mu]) && lockOps[&fox.mu] == old(lockOps[&fox.mu]) && pubCount[&fox.tree] == old(pubCount[&fox.tree])
+//@   ensures one-load: unlockedLoads[&fox.tree] == old(unlockedLoads[&fox.tree]) + (held[&fox.mu] ? 0 : 1)
+
+//@ func (*Router).Lookup props C06,C05,C12 partial
+//@   requires fox != nil && published[&fox.tree] != nil && r != nil && r.URL != nil
+//@   assume-at call (*cTx).resetWithWriter#1 : pool-discipline: c != nil && c.params != nil && c.tsrParams != nil && c.skipNds != nil
+//@   modifies heap, unlockedLoads[&fox.tree]
+//@   ensures nolock: held[&fox.mu] == old(held[&fox.mu]) && lockOps[&fox.mu] == old(lockOps[&fox.mu]) && pubCount[&fox.tree] == old(pubCount[&fox.tree])
+//@   ensures one-load: unlockedLoads[&fox.tree] == old(unlockedLoads[&fox.tree]) + (held[&fox.mu] ? 0 : 1)
+//@   ensures selected: old(sn(fox, r)) != nil ==> route == old(sn(fox, r).route)
+//@   ensures selected-none: old(sn(fox, r)) == nil ==> route == nil
+//@   ensures selected-tsr: tsr == old(st(fox, r))
+//@   ensures current-request: route != nil ==> cc != nil && dyntypeIs(cc, *cTx) && ctxOf(cc).req == r && ctxOf(cc).route == route && ctxOf(cc).tsr == tsr && ctxOf(cc).scope == RouteHandler
+//@   ensures none: route == nil ==> cc == nil
+
+//@ func (*Router).Len props C06,C05,C02
+//@   requires fox != nil && published[&fox.tree] != nil
+//@   modifies unlockedLoads[&fox.tree]
+//@   ensures result == published[&fox.tree].size
+//@   ensures one-load: unlockedLoads[&fox.tree] == old(unlockedLoads[&fox.tree]) + (held[&fox.mu] ? 0 : 1)
+
+//@ func (*Router).Iter props C06,C05,C03
+//@   requires fox != nil && published[&fox.tree] != nil
+//@   modifies unlockedLoads[&fox.tree]
+//@   ensures snapshot: result.tree == published[&fox.tree] && result.root == published[&fox.tree].root && result.maxDepth == published[&fox.tree].depth
+//@   ensures one-load: unlockedLoads[&fox.tree] == old(unlockedLoads[&fox.tree]) + (held[&fox.mu] ? 0 : 1)
